@@ -49,7 +49,41 @@ LargeWord   EProgCounter(void) { return (LargeWord)g_epc; }
 char*       ChkSymbNameUpTo(char const* pSym, char const* pUpTo) { (void)pSym; return (char*)pUpTo; }
 static int mon0(void) { return 0; }
 #define as_snprcatf(...) mon0()
+#ifdef VERIF_TMPSYM
+/* name monitor for the nameless temporary symbols: which internal name ("__back<n>" / "__forw<n>") was generated */
+#include <stdarg.h>
+static int  g_tn_kind, g_tn_calls; /* 1 = back, 2 = forw, 9 = anything else */
+static long g_tn_num;
+static int mon_tmpname(char* d, size_t n, char const* fmt, ...) {
+    va_list ap;
+    va_start(ap, fmt);
+    if (!strcmp(fmt, "__back%d")) { g_tn_kind = 1; g_tn_num = va_arg(ap, int); }
+    else if (!strcmp(fmt, "__forw%d")) { g_tn_kind = 2; g_tn_num = va_arg(ap, int); }
+    else if (!strcmp(fmt, "__%s%d")) {
+        char const* k = va_arg(ap, char const*);
+        g_tn_kind = !strcmp(k, "back") ? 1 : !strcmp(k, "forw") ? 2 : 9;
+        g_tn_num = va_arg(ap, int);
+    } else g_tn_kind = 9;
+    va_end(ap);
+    g_tn_calls++;
+    if (n > 1) { d[0] = '_'; d[1] = 0; }
+    return 1;
+}
+#define as_snprintf mon_tmpname
+/* memmove with a symbolic length: CBMC's library model (variable-length array + array_replace) lost the moved bytes here
+ * (spurious failure, the native replay passes); a bounded byte loop through a temporary with the same range obligations */
+static void* verif_memmove(void* d, void const* s, size_t n) {
+    char tmp[48]; size_t i;
+    VASSERT(n == 0 || (__CPROVER_w_ok(d, n) && __CPROVER_r_ok(s, n)), "C03: memmove stays inside source and destination objects");
+    VASSERT(n <= 48, "harness: memmove monitor capacity");
+    for (i = 0; i < n && i < 48; i++) tmp[i] = ((char const*)s)[i];
+    for (i = 0; i < n && i < 48; i++) ((char*)d)[i] = tmp[i];
+    return d;
+}
+#define memmove(d, s, n) verif_memmove((d), (s), (n))
+#else
 #define as_snprintf(...) mon0()
+#endif
 #define printf(...) mon0()
 #define fprintf(...) mon0()
 #ifdef VERIF_EXPAND
@@ -66,6 +100,9 @@ static void* verif_memcpy(void* d, void const* s, size_t n) {
 #include "asmpars.c" /* the real /repo/asmpars.c */
 #ifdef VERIF_EXPAND
 #undef memcpy
+#endif
+#ifdef VERIF_TMPSYM
+#undef memmove
 #endif
 #undef as_snprcatf
 #undef as_snprintf
@@ -392,3 +429,73 @@ void h_EvalStrInt_range(void) {
         VREACH("unknown");
     }
 }
+
+#ifdef VERIF_TMPSYM
+/* Nameless temporary symbols (manual, "Nameless Temporary Symbols"): a label '-' or '/' becomes the most recent "minus symbol",
+ * '-', '--', '---' name the three last of them; a label '+' or '/' is the next "plus symbol", '+', '++', '+++' name the next three.
+ * State: the counters and the log of the last three minus symbols, arbitrary within the representation invariant.  Names of
+ * 0..5 characters over { '-', '+', '/', ' ', 'a' } with leading/trailing blanks. */
+void h_ChkTmp2(void) {
+    char name[8], out[STRINGSIZE];
+    int src, i, b, e, k, cls; /* cls: 1 all '-', 2 all '+', 3 single '/', 0 other */
+    LongInt F0, B0, D0; TTmpSymLog L0[LOCSYMSIGHT];
+    Boolean r;
+    VND_BYTES(name, 8); name[5] = 0;
+    for (i = 0; i < 5; i++) VASSUME(name[i] == '-' || name[i] == '+' || name[i] == '/' || name[i] == ' ' || name[i] == 'a' || name[i] == 0);
+    VND(src, int); VASSUME(src == e_symbol_source_none || src == e_symbol_source_label || src == e_symbol_source_define);
+    VND(FwdSymCounter, int); VND(BackSymCounter, int); VND(TmpSymLogDepth, int);
+    VASSUME(FwdSymCounter >= 0 && FwdSymCounter < 0x7ffffff0 && BackSymCounter >= 0 && BackSymCounter < 0x7ffffff0 && TmpSymLogDepth >= 0 && TmpSymLogDepth <= LOCSYMSIGHT);
+    for (i = 0; i < LOCSYMSIGHT; i++) { VND(TmpSymLog[i].Back, uchar); VND(TmpSymLog[i].Counter, int); VASSUME(TmpSymLog[i].Back <= 1); L0[i] = TmpSymLog[i]; }
+    F0 = FwdSymCounter; B0 = BackSymCounter; D0 = TmpSymLogDepth;
+    /* specification side: trim blanks, classify */
+    for (e = 0; e < 5 && name[e]; e++) ;
+    for (b = 0; b < e && name[b] == ' '; b++) ;
+    for (; e > b && name[e - 1] == ' '; e--) ;
+    k = e - b; cls = 0;
+    if (k >= 1) {
+        int all_m = 1, all_p = 1;
+        for (i = b; i < e; i++) { if (name[i] != '-') all_m = 0; if (name[i] != '+') all_p = 0; }
+        cls = all_m ? 1 : all_p ? 2 : (k == 1 && name[b] == '/') ? 3 : 0;
+    }
+    g_tn_kind = 0; g_tn_calls = 0; g_tn_num = -1;
+    out[0] = 0;
+    r = ChkTmp2(out, name, (as_symbol_source_t)src);
+    if (src != e_symbol_source_none && k == 1 && cls == 1) {
+        VPOST(r && g_tn_kind == 1 && g_tn_num == B0 && BackSymCounter == B0 + 1 && FwdSymCounter == F0, "C13: label '-' defines a fresh minus symbol");
+        VPOST(TmpSymLogDepth == (D0 < LOCSYMSIGHT ? D0 + 1 : LOCSYMSIGHT) && TmpSymLog[0].Back && TmpSymLog[0].Counter == B0 &&
+              (D0 < 1 || (TmpSymLog[1].Back == L0[0].Back && TmpSymLog[1].Counter == L0[0].Counter)) &&
+              (D0 < 2 || (TmpSymLog[2].Back == L0[1].Back && TmpSymLog[2].Counter == L0[1].Counter)),
+              "C13: the new minus symbol becomes '-', the former '-' becomes '--', the former '--' becomes '---'");
+        VREACH("def minus");
+    } else if (src != e_symbol_source_none && cls == 3) {
+        VPOST(r && g_tn_kind == 2 && g_tn_num == F0 && FwdSymCounter == F0 + 1 && BackSymCounter == B0, "C13: label '/' is the next plus symbol");
+        VPOST(TmpSymLogDepth == (D0 < LOCSYMSIGHT ? D0 + 1 : LOCSYMSIGHT) && !TmpSymLog[0].Back && TmpSymLog[0].Counter == F0 &&
+              (D0 < 1 || (TmpSymLog[1].Back == L0[0].Back && TmpSymLog[1].Counter == L0[0].Counter)) &&
+              (D0 < 2 || (TmpSymLog[2].Back == L0[1].Back && TmpSymLog[2].Counter == L0[1].Counter)),
+              "C13: label '/' is also the most recent minus symbol");
+        VREACH("def slash");
+    } else if (src != e_symbol_source_none && k == 1 && cls == 2) {
+        VPOST(r && g_tn_kind == 2 && g_tn_num == F0 && FwdSymCounter == F0 + 1 && BackSymCounter == B0 && TmpSymLogDepth == D0, "C13: label '+' is the next plus symbol and no minus symbol");
+        VREACH("def plus");
+    } else if (src == e_symbol_source_none && cls == 1 && k <= LOCSYMSIGHT) {
+        if (k <= D0) {
+            VPOST(r && g_tn_kind == (L0[k - 1].Back ? 1 : 2) && g_tn_num == L0[k - 1].Counter, "C13: k minus signs name the k-th last minus symbol");
+            VREACH("ref minus");
+        } else {
+            VPOST(!r && g_tn_calls == 0, "C13: a minus reference behind the first minus symbol is no temporary symbol");
+            VREACH("ref minus none");
+        }
+        VPOST(FwdSymCounter == F0 && BackSymCounter == B0 && TmpSymLogDepth == D0, "C13: a reference changes nothing");
+    } else if (src == e_symbol_source_none && cls == 2 && k <= LOCSYMSIGHT) {
+        VPOST(r && g_tn_kind == 2 && g_tn_num == F0 + (k - 1), "C13: k plus signs name the k-th next plus symbol");
+        VPOST(FwdSymCounter == F0 && BackSymCounter == B0 && TmpSymLogDepth == D0, "C13: a reference changes nothing");
+        VREACH("ref plus");
+    } else if (cls == 0 || (src == e_symbol_source_none && cls == 3)) {
+        VPOST(!r && g_tn_calls == 0 && FwdSymCounter == F0 && BackSymCounter == B0 && TmpSymLogDepth == D0, "C13: any other name is no nameless temporary symbol and changes nothing");
+        VREACH("other");
+    }
+    for (i = 0; i < LOCSYMSIGHT; i++)
+        if (src == e_symbol_source_none) VPOST(TmpSymLog[i].Back == L0[i].Back && TmpSymLog[i].Counter == L0[i].Counter, "C13: references leave the log of minus symbols alone");
+    VREACH("end");
+}
+#endif
